@@ -116,6 +116,136 @@ return z
 			NParams: map[string]int{"§_F0": 1, "¶_h": 1, "¶_thrower": 1, "¶_rec": 0},
 		},
 		{
+			Kind: "corpus", Key: "string-concat-compare",
+			Note: "string concatenation yields a VM Buffer; ==, != and switch compare it with a ByteString by reference",
+			Plain: `func §_F0(x int) int {
+a := "ab"
+b := a + "c"
+r := 0
+if b == "abc" {
+r += 1
+}
+switch b {
+case "abc":
+r += 10
+}
+if x > 0 && b != "abc" {
+r += 100
+}
+return r
+}
+`,
+			Entries: []*Entry{{Name: "§_F0", Params: []Kind{KInt}, Ret: KInt, Tuples: ints(0, 1)}},
+			NParams: map[string]int{"§_F0": 1},
+		},
+		{
+			Kind: "corpus", Key: "string-concat-mapkey",
+			Note: "a concatenated string used as a map key FAULTs (Buffer is not a valid map key)",
+			Plain: `func §_F0(x int) int {
+a := "ab"
+m := map[string]int{"abc": 5}
+v, ok := m[a+"c"]
+if ok {
+return v + x
+}
+return -1
+}
+`,
+			Entries: []*Entry{{Name: "§_F0", Params: []Kind{KInt}, Ret: KInt, Tuples: ints(0, 1)}},
+			NParams: map[string]int{"§_F0": 1},
+		},
+		{
+			Kind: "corpus", Key: "string-order-compare",
+			Note: "< on strings compares the little-endian integers of the bytes, not lexicographically",
+			Plain: `func §_F0(x int) bool {
+a := "aa"
+b := "b"
+if x > 0 {
+return b < a
+}
+return a < b
+}
+`,
+			Entries: []*Entry{{Name: "§_F0", Params: []Kind{KInt}, Ret: KBool, Tuples: ints(0, 1)}},
+			NParams: map[string]int{"§_F0": 1},
+		},
+		{
+			Kind: "corpus", Key: "map-missing-key",
+			Note: "m[k] of an absent key is the zero value in Go and a FAULT (uncaught 'Key not found in Map') in the VM",
+			Plain: `func §_F0(x int) int {
+m := map[int]int{1: 5}
+return m[x]
+}
+`,
+			Entries: []*Entry{{Name: "§_F0", Params: []Kind{KInt}, Ret: KInt, Tuples: ints(1, 2)}},
+			NParams: map[string]int{"§_F0": 1},
+		},
+		{
+			Kind: "corpus", Key: "nil-map",
+			Note: "reading / deleting from a nil map is fine in Go; the VM FAULTs on Null (HASKEY / REMOVE)",
+			Plain: `func §_F0(x int) int {
+var m map[int]int
+if x > 0 {
+delete(m, 1)
+return 3
+}
+v, ok := m[2]
+if ok {
+return v
+}
+return 7
+}
+`,
+			Entries: []*Entry{{Name: "§_F0", Params: []Kind{KInt}, Ret: KInt, Tuples: ints(0, 1)}},
+			NParams: map[string]int{"§_F0": 1},
+		},
+		{
+			Kind: "corpus", Key: "append-aliasing",
+			Note: "b := append(a, x) leaves a unchanged in Go; the VM APPENDs in place, so a grows too",
+			Plain: `func §_F0(x int) int {
+a := []int{1, 2}
+b := append(a, x)
+return len(a)*10 + len(b)
+}
+`,
+			Entries: []*Entry{{Name: "§_F0", Params: []Kind{KInt}, Ret: KInt, Tuples: ints(3)}},
+			NParams: map[string]int{"§_F0": 1},
+		},
+		{
+			Kind: "corpus", Key: "minint64-literal",
+			Note: "the literal -9223372036854775808 is compiled as NEGATE of the wrapped constant 9223372036854775808",
+			Plain: `func §_F0(x int) int {
+y := -9223372036854775808
+return y + x
+}
+`,
+			Entries: []*Entry{{Name: "§_F0", Params: []Kind{KInt}, Ret: KInt, Tuples: ints(0, 1)}},
+			NParams: map[string]int{"§_F0": 1},
+		},
+		{
+			Kind: "corpus", Key: "defer-swallows-panic",
+			Note: "a deferred call that does not call recover() still ends the panic: the function returns zero values",
+			Plain: `var g¶_n = 0
+func ¶_bump() {
+g¶_n += 1
+}
+func ¶_f(x int) int {
+defer ¶_bump()
+if x > 0 {
+panic("boom")
+}
+return 5
+}
+func §_F0(x int) int {
+y := ¶_f(x)
+return y + g¶_n
+}
+`,
+			ResetP:  "g¶_n = 0\n",
+			Entries: []*Entry{{Name: "§_F0", Params: []Kind{KInt}, Ret: KInt, Tuples: ints(0, 1)}},
+			NParams: map[string]int{"§_F0": 1, "¶_f": 1, "¶_bump": 0},
+		},
+		{
 			Kind: "corpus", Key: "recover-runtime-error",
 			Note: "a Go run-time error (division by zero) is recoverable in Go and an uncatchable FAULT in NeoVM",
 			Plain: `var g¶_r = 0
